@@ -4,6 +4,7 @@ mod sim;
 mod cmd_consts;
 mod cmd_layout;
 mod cmd_recon;
+mod cmd_lfdbt;
 #[cfg(feature = "matrix")]
 mod cmd_session;
 
@@ -15,6 +16,7 @@ fn main() {
         "consts" => cmd_consts::run(),
         "layout" => cmd_layout::run(),
         "recon" => cmd_recon::run(),
+        "lfdbt" => cmd_lfdbt::run(),
         #[cfg(feature = "matrix")]
         "session" => cmd_session::run(),
         "variant" => {
